@@ -544,6 +544,12 @@ impl Domain for ClusterDomain {
                 *self.nodes[u(1)].directive.lock() = Directive::Fail;
                 "ok".into()
             },
+            "hangnext" => {
+                // the next storage mutation on node j is performed and then never returns: the replica stays silent, it neither
+                // acknowledges nor answers with an error (wedged disk, frozen process, black-holed connection)
+                *self.nodes[u(1)].directive.lock() = Directive::HangAfterWrite;
+                "ok".into()
+            },
             "unreach" => {
                 // node j has crashed but is still selected: connections to it are refused
                 if !self.down.contains(&u(1)) { self.down.push(u(1)); }
@@ -608,7 +614,11 @@ impl Domain for ClusterDomain {
                             Ok::<_, StoreError<<Store as Storage>::Error>>(())
                         }
                     };
-                    let r = verif::distribute::<Store, _, _>(addrs, factory).await;
+                    let r = match tmo(verif::distribute::<Store, _, _>(addrs, factory)).await {
+                        Some(r) => r,
+                        // the call is still pending four times the advertised timeout later
+                        None => return (ts, Err("blocked".to_string()), if is_put { Issued::Put(doc.clone()) } else { Issued::Del(meta) }),
+                    };
                     let r = match r {
                         Ok(()) => Ok(()),
                         Err(StoreError::ConsistencyError(datacake_node::ConsistencyError::ConsistencyFailure { responses, required, .. })) => Err(format!("consistency {}/{}", responses, required)),
@@ -663,7 +673,11 @@ impl Domain for ClusterDomain {
                             Ok::<_, StoreError<<Store as Storage>::Error>>(())
                         }
                     };
-                    let r = verif::distribute::<Store, _, _>(addrs, factory).await;
+                    let r = match tmo(verif::distribute::<Store, _, _>(addrs, factory)).await {
+                        Some(r) => r,
+                        // the call is still pending four times the advertised timeout later
+                        None => return (ts, Err("blocked".to_string()), issued),
+                    };
                     let r = match r {
                         Ok(()) => Ok(()),
                         Err(StoreError::ConsistencyError(datacake_node::ConsistencyError::ConsistencyFailure { responses, required, .. })) => Err(format!("consistency {}/{}", responses, required)),
